@@ -193,11 +193,21 @@ def _unroll(fn: ast.AST) -> int:
 
 
 class _AttrCalls(ast.NodeTransformer):
-    """getattr(o, "k") -> o.k ; statement setattr(o, "k", e) -> o.k = e (constant, identifier-like names only)"""
+    """getattr(o, "k") -> o.k ; statement setattr(o, "k", e) -> o.k = e (constant, identifier-like names only);
+    statement np.copyto(dst, src, where=mask) with array-valued src -> dst[mask] = (src)[mask]"""
 
     def visit_Expr(self, s: ast.Expr):
         self.generic_visit(s)
         c = s.value
+        if isinstance(c, ast.Call) and isinstance(c.func, ast.Attribute) and c.func.attr == "copyto" and isinstance(c.func.value, ast.Name) \
+                and c.func.value.id in ("np", "numpy") and len(c.args) == 2 and len(c.keywords) == 1 and c.keywords[0].arg == "where" \
+                and isinstance(c.args[0], ast.Name) and not isinstance(c.args[1], ast.Constant):
+            m = c.keywords[0].value
+            tgt = ast.Subscript(value=c.args[0], slice=copy.deepcopy(m), ctx=ast.Store())
+            val = ast.Subscript(value=c.args[1], slice=copy.deepcopy(m), ctx=ast.Load())
+            a = ast.copy_location(ast.Assign(targets=[tgt], value=val), s)
+            ast.fix_missing_locations(a)
+            return a
         if isinstance(c, ast.Call) and isinstance(c.func, ast.Name) and c.func.id == "setattr" and len(c.args) == 3 and not c.keywords \
                 and isinstance(c.args[1], ast.Constant) and isinstance(c.args[1].value, str) and c.args[1].value.isidentifier():
             tgt = ast.Attribute(value=c.args[0], attr=c.args[1].value, ctx=ast.Store())
@@ -269,7 +279,11 @@ def _splat(fn: ast.AST) -> int:
                 continue
             vals = [b for _, b in kws] if kind == "dict" else elts
             pure = all(_is_pure(x) for x in vals)
-            if pure:
+            adjacent = len(splats) == 1 and j < len(body) and any(splats[0][0] is n_ for n_ in ast.walk(body[j])) and \
+                isinstance(body[j], (ast.Assign, ast.Expr, ast.Return, ast.AnnAssign)) and body[j].value is splats[0][0]
+            if adjacent:
+                pass      # created and consumed back to back: nothing can change in between
+            elif pure:
                 # the values may be re-evaluated at each call: what they read must never change after the creation
                 fr = set().union(*[_free(x) for x in vals]) if vals else set()
                 astores = _attr_stores(fn)
@@ -350,13 +364,475 @@ def _inline_tests(fn: ast.AST) -> int:
     return k
 
 
-def normalise(tree: ast.Module) -> Dict[str, int]:
+# ---------------------------------------------------------------------------------------------- T10 / T11
+def _count_loops(fn: ast.AST) -> int:
+    """i = a ; while i < b: <body without continue, i only incremented by the last statement> ; i += 1
+       ->  for i in range(a, b): <body>           (b pure and not written in the body, i dead after the loop)"""
+    k = 0
+    for body in _bodies(fn):
+        j = 0
+        while j < len(body):
+            s = body[j]
+            if not (isinstance(s, ast.While) and not s.orelse and isinstance(s.test, ast.Compare) and len(s.test.ops) == 1 and s.body):
+                j += 1
+                continue
+            t = s.test
+            if isinstance(t.ops[0], ast.Lt) and isinstance(t.left, ast.Name):
+                iv, bound = t.left.id, t.comparators[0]
+            elif isinstance(t.ops[0], ast.Gt) and isinstance(t.comparators[0], ast.Name):
+                iv, bound = t.comparators[0].id, t.left
+            else:
+                j += 1
+                continue
+            last = s.body[-1]
+            inc_ok = isinstance(last, ast.AugAssign) and isinstance(last.op, ast.Add) and isinstance(last.target, ast.Name) \
+                and last.target.id == iv and isinstance(last.value, ast.Constant) and last.value.value == 1
+            if not inc_ok and isinstance(last, ast.Assign) and len(last.targets) == 1 and isinstance(last.targets[0], ast.Name) \
+                    and last.targets[0].id == iv and isinstance(last.value, ast.BinOp) and isinstance(last.value.op, ast.Add) \
+                    and {ast.dump(last.value.left), ast.dump(last.value.right)} == {ast.dump(ast.Name(id=iv, ctx=ast.Load())), ast.dump(ast.Constant(value=1))}:
+                inc_ok = True
+            # the initialisation: the closest preceding statement of the block assigning the counter
+            init = None
+            for q in range(j - 1, -1, -1):
+                b_ = body[q]
+                if isinstance(b_, ast.Assign) and len(b_.targets) == 1 and isinstance(b_.targets[0], ast.Name) and b_.targets[0].id == iv:
+                    init = (q, b_)
+                    break
+                if any(isinstance(n, ast.Name) and n.id == iv for n in ast.walk(b_)):
+                    break
+            inner = s.body[:-1]
+            stored_inner = {n.id for b_ in inner for n in ast.walk(b_) if isinstance(n, ast.Name) and isinstance(n.ctx, (ast.Store, ast.Del))}
+            bound_ok = _is_pure(bound) or (isinstance(bound, ast.Call) and isinstance(bound.func, ast.Name) and bound.func.id == "len"
+                                           and len(bound.args) == 1 and isinstance(bound.args[0], ast.Name) and not bound.keywords)
+            ok = inc_ok and init is not None and bound_ok and _is_pure(init[1].value) \
+                and iv not in stored_inner and not (_free(bound) & (stored_inner | {iv})) \
+                and not any(isinstance(n, ast.Continue) for b_ in inner for n in ast.walk(b_)
+                            if not isinstance(b_, (ast.For, ast.While))) \
+                and not any(isinstance(n, (ast.FunctionDef, ast.Lambda)) for b_ in inner for n in ast.walk(b_)) \
+                and not any(isinstance(n, ast.Name) and n.id == iv for b_ in body[j + 1:] for n in ast.walk(b_)) \
+                and not any(isinstance(n, ast.Call) and isinstance(n.func, ast.Name) and n.func.id == "len" and n.args
+                            and isinstance(n.args[0], ast.Name) and _mutated_in(inner, n.args[0].id) for n in ast.walk(bound)) \
+                and not any(isinstance(n, ast.Attribute) for n in ast.walk(bound) if False)
+            # nested loops may contain their own `continue`; one that belongs to THIS loop is only at nesting depth 0
+            if ok and _own_continue(inner):
+                ok = False
+            if ok:
+                args = [copy.deepcopy(bound)] if isinstance(init[1].value, ast.Constant) and init[1].value.value == 0 else \
+                    [copy.deepcopy(init[1].value), copy.deepcopy(bound)]
+                f_ = ast.For(target=ast.Name(id=iv, ctx=ast.Store()), iter=ast.Call(func=ast.Name(id="range", ctx=ast.Load()), args=args, keywords=[]),
+                             body=inner or [ast.Pass()], orelse=[])
+                ast.copy_location(f_, s)
+                ast.fix_missing_locations(f_)
+                body[j] = f_
+                del body[init[0]]
+                k += 1
+                continue
+            j += 1
+    return k
+
+
+def _own_continue(stmts) -> bool:
+    for s in stmts:
+        if isinstance(s, ast.Continue):
+            return True
+        if isinstance(s, (ast.For, ast.While, ast.FunctionDef)):
+            continue
+        for fld in ("body", "orelse", "finalbody"):
+            if _own_continue(getattr(s, fld, []) or []):
+                return True
+        if isinstance(s, ast.Try):
+            for h in s.handlers:
+                if _own_continue(h.body):
+                    return True
+    return False
+
+
+def _mutated_in(stmts, name: str) -> bool:
+    for b_ in stmts:
+        for n in ast.walk(b_):
+            if isinstance(n, ast.Call) and isinstance(n.func, ast.Attribute) and isinstance(n.func.value, ast.Name) and n.func.value.id == name \
+                    and n.func.attr in ("append", "appendleft", "pop", "popleft", "extend", "insert", "remove", "clear"):
+                return True
+            if isinstance(n, ast.Name) and n.id == name and isinstance(n.ctx, (ast.Store, ast.Del)):
+                return True
+    return False
+
+
+def _index_loops(fn: ast.AST) -> int:
+    """(a) for k in range(len(S)): .. S[k] ..   (k used only as S[k], S a name not written in the body)
+             ->  for S_item in S: .. S_item ..
+       (b) for v in S: .. v[0] .. v[1] ..   with S bound once to tuple(zip(A, B)) / list(zip(..)) / zip(..), v used only as v[<const>]
+             ->  for (v_0, v_1) in S: .. v_0 .. v_1 ..
+       (c) for t in S: a = t  /  a, b = t   as first statement  ->  for a in S / for a, b in S"""
+    k = 0
+    stores = _stores(fn)
+    for body in _bodies(fn):
+        for s in body:
+            if not (isinstance(s, ast.For) and not s.orelse and isinstance(s.target, ast.Name)):
+                continue
+            # ---- (a)
+            it = s.iter
+            if isinstance(it, ast.Call) and isinstance(it.func, ast.Name) and it.func.id == "range" and len(it.args) == 1 and not it.keywords \
+                    and isinstance(it.args[0], ast.Call) and isinstance(it.args[0].func, ast.Name) and it.args[0].func.id == "len" \
+                    and len(it.args[0].args) == 1 and isinstance(it.args[0].args[0], ast.Name):
+                seq, iv = it.args[0].args[0].id, s.target.id
+                loads = [n for b_ in s.body for n in ast.walk(b_) if isinstance(n, ast.Name) and n.id == iv]
+                subs = [n for b_ in s.body for n in ast.walk(b_) if isinstance(n, ast.Subscript) and isinstance(n.value, ast.Name)
+                        and n.value.id == seq and isinstance(n.slice, ast.Name) and n.slice.id == iv and isinstance(n.ctx, ast.Load)]
+                taken = {n.id for n in ast.walk(fn) if isinstance(n, ast.Name)}
+                if loads and len(loads) == len(subs) and not _mutated_in(s.body, seq) and all(isinstance(n.ctx, ast.Load) for n in loads) \
+                        and not any(isinstance(n, (ast.FunctionDef, ast.Lambda)) for b_ in s.body for n in ast.walk(b_)):
+                    item = f"{seq}_item"
+                    while item in taken:
+                        item += "_"
+
+                    class R(ast.NodeTransformer):
+                        def visit_Subscript(self, n):
+                            if n in subs:
+                                return ast.copy_location(ast.Name(id=item, ctx=ast.Load()), n)
+                            return self.generic_visit(n)
+                    s.body = [R().visit(b_) for b_ in s.body]
+                    s.target = ast.copy_location(ast.Name(id=item, ctx=ast.Store()), s.target)
+                    s.iter = ast.copy_location(ast.Name(id=seq, ctx=ast.Load()), s.iter)
+                    ast.fix_missing_locations(s)
+                    k += 1
+            # ---- (c)
+            first = s.body[0] if s.body else None
+            if isinstance(s.target, ast.Name) and isinstance(first, ast.Assign) and len(first.targets) == 1 and isinstance(first.value, ast.Name) \
+                    and first.value.id == s.target.id and len(s.body) > 1:
+                v = s.target.id
+                rest = s.body[1:]
+                if not any(isinstance(n, ast.Name) and n.id == v for b_ in rest for n in ast.walk(b_)) and \
+                        not any(isinstance(n, ast.Name) and n.id == v for n in ast.walk(first.targets[0])):
+                    s.target = first.targets[0]
+                    s.body = rest
+                    ast.fix_missing_locations(s)
+                    k += 1
+            # ---- (b)
+            if isinstance(s.target, ast.Name):
+                v = s.target.id
+                src_ = s.iter
+                if isinstance(src_, ast.Name) and len(stores.get(src_.id, [])) == 1:
+                    defs = [x for x in _own_nodes(fn) if isinstance(x, (ast.Assign, ast.AnnAssign)) and getattr(x, "value", None) is not None
+                            and isinstance((x.targets[0] if isinstance(x, ast.Assign) else x.target), ast.Name)
+                            and (x.targets[0] if isinstance(x, ast.Assign) else x.target).id == src_.id]
+                    src_ = defs[0].value if len(defs) == 1 else None
+                while isinstance(src_, ast.Call) and isinstance(src_.func, ast.Name) and src_.func.id in ("tuple", "list", "iter") and len(src_.args) == 1:
+                    src_ = src_.args[0]
+                if isinstance(src_, ast.Call) and isinstance(src_.func, ast.Name) and src_.func.id == "zip" and not src_.keywords and 2 <= len(src_.args) <= 4:
+                    arity = len(src_.args)
+                    loads = [n for b_ in s.body for n in ast.walk(b_) if isinstance(n, ast.Name) and n.id == v]
+                    subs = [n for b_ in s.body for n in ast.walk(b_) if isinstance(n, ast.Subscript) and isinstance(n.value, ast.Name) and n.value.id == v
+                            and isinstance(n.slice, ast.Constant) and isinstance(n.slice.value, int) and 0 <= n.slice.value < arity
+                            and isinstance(n.ctx, ast.Load)]
+                    if loads and len(loads) == len(subs) and not any(isinstance(n, (ast.FunctionDef, ast.Lambda)) for b_ in s.body for n in ast.walk(b_)) \
+                            and not any(isinstance(n, ast.Name) and n.id == v for b2 in body[body.index(s) + 1:] for n in ast.walk(b2)):
+                        taken = {n.id for n in ast.walk(fn) if isinstance(n, ast.Name)}
+                        names = []
+                        for c in range(arity):
+                            nm = f"{v}_{c}"
+                            while nm in taken:
+                                nm += "_"
+                            names.append(nm)
+
+                        class R2(ast.NodeTransformer):
+                            def visit_Subscript(self, n):
+                                if n in subs:
+                                    return ast.copy_location(ast.Name(id=names[n.slice.value], ctx=ast.Load()), n)
+                                return self.generic_visit(n)
+                        s.body = [R2().visit(b_) for b_ in s.body]
+                        s.target = ast.copy_location(ast.Tuple(elts=[ast.Name(id=nm, ctx=ast.Store()) for nm in names], ctx=ast.Store()), s.target)
+                        ast.fix_missing_locations(s)
+                        k += 1
+    return k
+
+
+# ---------------------------------------------------------------------------------------------- T9
+class _Numpy(ast.NodeTransformer):
+    """one spelling for a few numpy idioms that have exact equivalents on arrays:
+    E.max() / E.min() -> np.max(E) / np.min(E);  E.clip(lo, hi), np.clip(E, a_min=lo, a_max=hi) -> np.clip(E, lo, hi);
+    np.array(E, copy=True) -> np.copy(E);  np.matmul(a, b) -> a @ b"""
+
+    def __init__(self):
+        self.k = 0
+
+    def visit_Call(self, c: ast.Call):
+        self.generic_visit(c)
+        f = c.func
+        r = None
+        if isinstance(f, ast.Attribute) and f.attr in ("max", "min") and not c.args and not c.keywords \
+                and not (isinstance(f.value, ast.Name) and f.value.id in ("np", "numpy", "math")):
+            r = ast.Call(func=ast.Attribute(value=ast.Name(id="np", ctx=ast.Load()), attr=f.attr, ctx=ast.Load()), args=[f.value], keywords=[])
+        elif isinstance(f, ast.Attribute) and f.attr == "clip" and not (isinstance(f.value, ast.Name) and f.value.id in ("np", "numpy")) \
+                and len(c.args) == 2 and not c.keywords:
+            r = ast.Call(func=ast.Attribute(value=ast.Name(id="np", ctx=ast.Load()), attr="clip", ctx=ast.Load()),
+                         args=[f.value] + list(c.args), keywords=[])
+        elif isinstance(f, ast.Attribute) and f.attr == "clip" and isinstance(f.value, ast.Name) and f.value.id in ("np", "numpy") \
+                and len(c.args) == 1 and {k.arg for k in c.keywords} in ({"a_min", "a_max"}, {"min", "max"}):
+            kws = {k.arg.replace("a_", ""): k.value for k in c.keywords}
+            r = ast.Call(func=f, args=[c.args[0], kws["min"], kws["max"]], keywords=[])
+        elif isinstance(f, ast.Attribute) and f.attr == "array" and isinstance(f.value, ast.Name) and f.value.id in ("np", "numpy") \
+                and len(c.args) == 1 and len(c.keywords) == 1 and c.keywords[0].arg == "copy" \
+                and isinstance(c.keywords[0].value, ast.Constant) and c.keywords[0].value.value is True:
+            r = ast.Call(func=ast.Attribute(value=f.value, attr="copy", ctx=ast.Load()), args=[c.args[0]], keywords=[])
+        elif isinstance(f, ast.Attribute) and f.attr == "nonzero" and isinstance(f.value, ast.Name) and f.value.id in ("np", "numpy") \
+                and len(c.args) == 1 and not c.keywords:
+            r = ast.Call(func=ast.Attribute(value=c.args[0], attr="nonzero", ctx=ast.Load()), args=[], keywords=[])
+        elif isinstance(f, ast.Attribute) and f.attr == "isin" and isinstance(f.value, ast.Name) and f.value.id in ("np", "numpy") \
+                and len(c.args) == 2 and len(c.keywords) == 1 and c.keywords[0].arg == "invert" \
+                and isinstance(c.keywords[0].value, ast.Constant) and c.keywords[0].value.value is True:
+            r = ast.UnaryOp(op=ast.Invert(), operand=ast.Call(func=f, args=list(c.args), keywords=[]))
+        elif isinstance(f, ast.Attribute) and f.attr == "matmul" and isinstance(f.value, ast.Name) and f.value.id in ("np", "numpy") \
+                and len(c.args) == 2 and not c.keywords:
+            r = ast.BinOp(left=c.args[0], op=ast.MatMult(), right=c.args[1])
+        if r is not None:
+            self.k += 1
+            return ast.fix_missing_locations(ast.copy_location(r, c))
+        return c
+
+
+# ---------------------------------------------------------------------------------------------- T14
+def _terminal(stmts) -> bool:
+    return bool(stmts) and isinstance(stmts[-1], (ast.Break, ast.Return, ast.Continue, ast.Raise))
+
+
+def _nest_guards(fn: ast.AST) -> int:
+    """if A and B: S; <break|return|continue|raise>          if A:
+       if A: R                                        ->         if B: S; <break|...>
+       else: N                                                   R
+                                                             else: N
+    (A pure: evaluating it once instead of twice changes nothing; when the second `if` is reached either A or B was false)"""
+    k = 0
+    for body in _bodies(fn):
+        i = 0
+        while i + 1 < len(body):
+            s1, s2 = body[i], body[i + 1]
+            if isinstance(s1, ast.If) and not s1.orelse and _terminal(s1.body) and isinstance(s1.test, ast.BoolOp) \
+                    and isinstance(s1.test.op, ast.And) and len(s1.test.values) >= 2 and isinstance(s2, ast.If):
+                A = s1.test.values[0]
+                if _is_pure(A) and ast.dump(A) == ast.dump(s2.test):
+                    rest = s1.test.values[1:]
+                    B = rest[0] if len(rest) == 1 else ast.BoolOp(op=ast.And(), values=rest)
+                    inner = ast.copy_location(ast.If(test=B, body=s1.body, orelse=[]), s1)
+                    outer = ast.copy_location(ast.If(test=s2.test, body=[inner] + s2.body, orelse=s2.orelse), s1)
+                    ast.fix_missing_locations(outer)
+                    body[i:i + 2] = [outer]
+                    k += 1
+                    continue
+            i += 1
+    return k
+
+
+# ---------------------------------------------------------------------------------------------- T12
+READONLY_PARAMS = {"mats"}    # objects the solver kernels only read (rule MATSOWN: their fields are assigned in bfgsmats.py only)
+
+
+def _attr_aliases(fn: ast.AST, modname: str) -> int:
+    """t = mats.attr (bound once, mats a parameter the function never writes through)  ->  mats.attr at the uses of t"""
+    if modname == "bfgsmats" or not isinstance(fn, (ast.FunctionDef, ast.AsyncFunctionDef)):
+        return 0
+    a = fn.args
+    params = {p.arg for p in a.posonlyargs + a.args + a.kwonlyargs}
+    roots = params & READONLY_PARAMS
+    if not roots:
+        return 0
+    stores = _stores(fn)
+    if any(stores.get(r) for r in roots):
+        return 0
+    for n in ast.walk(fn):
+        if isinstance(n, (ast.Attribute, ast.Subscript)) and isinstance(n.ctx, (ast.Store, ast.Del)):
+            b = n
+            while isinstance(b, (ast.Attribute, ast.Subscript)):
+                b = b.value
+            if isinstance(b, ast.Name) and b.id in roots:
+                return 0
+    k = 0
+    m: Dict[str, ast.expr] = {}
+    drop = []
+    for s in fn.body:
+        if isinstance(s, (ast.Assign, ast.AnnAssign)) and getattr(s, "value", None) is not None:
+            t = s.targets[0] if isinstance(s, ast.Assign) and len(s.targets) == 1 else getattr(s, "target", None)
+            v = s.value
+            b = v
+            while isinstance(b, ast.Attribute):
+                b = b.value
+            if isinstance(t, ast.Name) and isinstance(v, ast.Attribute) and isinstance(b, ast.Name) and b.id in roots \
+                    and len(stores.get(t.id, [])) == 1 and t.id not in params:
+                m[t.id] = v
+                drop.append(s)
+    if not m:
+        return 0
+    for s in drop:
+        fn.body.remove(s)
+    _Subst2(m).visit(fn)
+    ast.fix_missing_locations(fn)
+    return len(m)
+
+
+class _Subst2(ast.NodeTransformer):
+    """like _Subst but also inside nested functions / lambdas (closures read the same object)"""
+
+    def __init__(self, m):
+        self.m = m
+
+    def visit_Name(self, n):
+        if isinstance(n.ctx, ast.Load) and n.id in self.m:
+            return ast.copy_location(copy.deepcopy(self.m[n.id]), n)
+        return n
+
+
+# ---------------------------------------------------------------------------------------------- T15
+def _module_constants(tree: ast.Module) -> int:
+    """NAME = <literal str / number> at module level (bound once, never declared global, not shadowed)  ->  the literal
+    at its uses inside the module's functions"""
+    consts: Dict[str, ast.Constant] = {}
+    counts: Dict[str, int] = {}
+    for s in tree.body:
+        tg = s.targets if isinstance(s, ast.Assign) else [s.target] if isinstance(s, (ast.AnnAssign, ast.AugAssign)) else []
+        for t in tg:
+            for n in ast.walk(t):
+                if isinstance(n, ast.Name):
+                    counts[n.id] = counts.get(n.id, 0) + 1
+        if isinstance(s, (ast.Assign, ast.AnnAssign)) and getattr(s, "value", None) is not None and len(tg) == 1 and isinstance(tg[0], ast.Name) \
+                and isinstance(s.value, ast.Constant) and isinstance(s.value.value, (str, int, float)) and not isinstance(s.value.value, bool) \
+                and not tg[0].id.startswith("__"):
+            consts[tg[0].id] = s.value
+    for n in ast.walk(tree):
+        if isinstance(n, (ast.Global, ast.Nonlocal)):
+            for k in n.names:
+                consts.pop(k, None)
+    consts = {k: v for k, v in consts.items() if counts.get(k) == 1}
+    if not consts:
+        return 0
+    k = 0
+    for fn in [n for n in ast.walk(tree) if isinstance(n, (ast.FunctionDef, ast.AsyncFunctionDef))]:
+        local = set(_stores(fn)) | {a.arg for a in fn.args.posonlyargs + fn.args.args + fn.args.kwonlyargs}
+        m = {k_: v for k_, v in consts.items() if k_ not in local}
+        if not m:
+            continue
+        for n in list(_own_nodes(fn)):
+            pass
+        before = sum(1 for n in _own_nodes(fn) if isinstance(n, ast.Name) and n.id in m and isinstance(n.ctx, ast.Load))
+        if before:
+            # do not descend into nested functions that shadow the name: _Subst skips nested defs, they are visited on their own
+            for fld in ("body",):
+                fn.body = [_Subst(m).visit(b_) for b_ in fn.body]
+            ast.fix_missing_locations(fn)
+            k += before
+    return k
+
+
+# ---------------------------------------------------------------------------------------------- T17
+COUNTER_ATTRS = {"nfev", "ngev", "nhev", "nit"}
+
+
+def _counter_increments(fn: ast.AST) -> int:
+    """c = c + <int literal>  ->  c += <int literal>   for integer counters only (a wrapper counter attribute, or a
+    local whose other bindings are integer literals): for numbers the two are the same, for arrays they are not"""
+    k = 0
+    int_locals: Dict[str, bool] = {}
+    for n in _own_nodes(fn):
+        if isinstance(n, (ast.Assign, ast.AnnAssign)) and getattr(n, "value", None) is not None:
+            for t in (n.targets if isinstance(n, ast.Assign) else [n.target]):
+                if isinstance(t, ast.Name):
+                    v = n.value
+                    is_int = isinstance(v, ast.Constant) and isinstance(v.value, int) and not isinstance(v.value, bool)
+                    is_self_inc = isinstance(v, ast.BinOp) and isinstance(v.op, (ast.Add, ast.Sub)) and \
+                        any(isinstance(x, ast.Name) and x.id == t.id for x in (v.left, v.right)) and \
+                        any(isinstance(x, ast.Constant) and isinstance(x.value, int) for x in (v.left, v.right))
+                    int_locals[t.id] = int_locals.get(t.id, True) and (is_int or is_self_inc)
+    for body in _bodies(fn):
+        for i, s in enumerate(body):
+            if not (isinstance(s, ast.Assign) and len(s.targets) == 1 and isinstance(s.value, ast.BinOp) and isinstance(s.value.op, (ast.Add, ast.Sub))):
+                continue
+            t, v = s.targets[0], s.value
+            counter = (isinstance(t, ast.Attribute) and t.attr in COUNTER_ATTRS) or (isinstance(t, ast.Name) and int_locals.get(t.id))
+            if not counter:
+                continue
+            ts = ast.dump(ast.parse(ast.unparse(t), mode="eval").body)
+            l, r = ast.dump(ast.parse(ast.unparse(v.left), mode="eval").body), ast.dump(ast.parse(ast.unparse(v.right), mode="eval").body)
+            c = None
+            if l == ts and isinstance(v.right, ast.Constant) and isinstance(v.right.value, int) and not isinstance(v.right.value, bool):
+                c = v.right
+            elif r == ts and isinstance(v.left, ast.Constant) and isinstance(v.left.value, int) and isinstance(v.op, ast.Add) and not isinstance(v.left.value, bool):
+                c = v.left
+            if c is None:
+                continue
+            tgt = copy.deepcopy(t)
+            tgt.ctx = ast.Store()
+            a = ast.copy_location(ast.AugAssign(target=tgt, op=v.op, value=c), s)
+            ast.fix_missing_locations(a)
+            body[i] = a
+            k += 1
+    return k
+
+
+# ---------------------------------------------------------------------------------------------- T16
+def _closure_roles(tree: ast.Module, modname: str) -> int:
+    """the closures of ScalarFunction.__init__ are known to the rules by name; name them by what they do:
+    stored in self._update_fun_impl / self._update_grad_impl -> update_fun / update_grad; the one calling the raw
+    objective / gradient parameter -> fun_wrapped / grad_wrapped"""
+    if modname != "scalar_function":
+        return 0
+    k = 0
+    for cls in [n for n in tree.body if isinstance(n, ast.ClassDef) and n.name == "ScalarFunction"]:
+        for init in [m for m in cls.body if isinstance(m, ast.FunctionDef) and m.name == "__init__"]:
+            params = [a.arg for a in init.args.args]
+            closures = [n for n in _own_nodes(init) if isinstance(n, ast.FunctionDef)]
+            want: Dict[int, str] = {}
+            for s_ in _own_nodes(init):
+                if isinstance(s_, ast.Assign) and len(s_.targets) == 1 and isinstance(s_.targets[0], ast.Attribute) and isinstance(s_.value, ast.Name):
+                    role = {"_update_fun_impl": "update_fun", "_update_grad_impl": "update_grad"}.get(s_.targets[0].attr)
+                    if role:
+                        # the closure of that name defined in the same block
+                        for body in _bodies(init):
+                            if s_ in body:
+                                for c in body:
+                                    if isinstance(c, ast.FunctionDef) and c.name == s_.value.id:
+                                        want[id(c)] = role
+            for c in closures:
+                if id(c) in want:
+                    continue
+                for call in ast.walk(c):
+                    if isinstance(call, ast.Call) and isinstance(call.func, ast.Name) and call.func.id in ("fun", "grad") and call.func.id in params:
+                        want[id(c)] = f"{call.func.id}_wrapped"
+            for c in closures:
+                new = want.get(id(c))
+                if not new or new == c.name:
+                    continue
+                # the new name must be free in the block where the closure lives (other branches may reuse it)
+                for body in _bodies(init):
+                    if c in body:
+                        if any(isinstance(x, ast.FunctionDef) and x.name == new and x is not c for x in body):
+                            break
+                        old = c.name
+                        c.name = new
+                        for b_ in body:
+                            for n in ast.walk(b_):
+                                if isinstance(n, ast.Name) and n.id == old:
+                                    n.id = new
+                        k += 1
+                        break
+    return k
+
+
+def normalise(tree: ast.Module, modname: str = "") -> Dict[str, int]:
     stats = {"T1 splat": 0, "T2 parallel": 0, "T3 unroll": 0, "T4 tests": 0}
     fns = [n for n in ast.walk(tree) if isinstance(n, (ast.FunctionDef, ast.AsyncFunctionDef))]
     for fn in fns:
         stats["T3 unroll"] += _unroll(fn)
     _AttrCalls().visit(tree)
+    nv = _Numpy()
+    nv.visit(tree)
+    stats["T9 numpy spelling"] = nv.k
     ast.fix_missing_locations(tree)
+    stats["T12 read-only attribute alias"] = sum(_attr_aliases(fn, modname) for fn in fns)
+    stats["T17 counter increments"] = sum(_counter_increments(fn) for fn in fns)
+    stats["T16 closure roles"] = _closure_roles(tree, modname)
+    stats["T15 module constants"] = _module_constants(tree)
+    stats["T14 nested guards"] = sum(_nest_guards(fn) for fn in fns)
+    stats["T10 counting loop"] = sum(_count_loops(fn) for fn in fns)
+    stats["T11 index loop"] = sum(_index_loops(fn) for fn in fns)
     for fn in fns:
         stats["T2 parallel"] += _split_parallel(fn)
         stats["T1 splat"] += _splat(fn)
